@@ -195,8 +195,19 @@ def find_inspections(crate, body, scope_fn=None):
                 continue
             cls = "OP"
         elif ls in ("eq", "ne"):
-            # comparison with a non-literal: not a syntax inspection
-            continue
+            # comparison with a non-literal: follow parameters / closure captures to the literals the
+            # call sites pass (one or two levels); an operator literal makes this an operator recogniser
+            lits = set()
+            for o in others:
+                lits |= resolve_literals(crate, body, o)
+            special = sorted(l for l in lits if SPECIAL_RE.search(l) or l == "")
+            special = [l for l in special if (scope_fn_suffix(scope_fn), l) not in EXEMPT]
+            if not special:
+                continue
+            kind = "cmp"
+            positive = (ls == "eq")
+            desc = "text == one of %s" % "/".join('"%s"' % l for l in special)
+            cls = "OP"
         elif ci is not None and ci.get("local") and ls not in ("re_contains", "find_first_group"):
             if (scope_fn_suffix(scope_fn), ls) in EXEMPT:
                 continue
@@ -228,6 +239,59 @@ def find_inspections(crate, body, scope_fn=None):
             if ls in ("captures", "find") and dty != "bool":
                 positive = "Some"
         out.append(Inspection(body, bb, callee, base, desc, cls, kind, positive))
+    return out
+
+
+def resolve_literals(crate, body, e, depth=0):
+    """string literals an expression can stand for, following closure captures and parameters to the
+    call sites (bounded depth).  Unknown sources contribute nothing."""
+    if depth > 3:
+        return set()
+    e = strip_sites(e)
+    p = peel(e)
+    while p is not e:
+        e = p
+        p = peel(e)
+    s = const_str(e)
+    if s is not None:
+        return {s}
+    out = set()
+    if e[0] == "capture":
+        parent = crate.fn(body.parent)
+        if parent is not None:
+            for l, nm in parent.names.items():
+                if nm == e[1]:
+                    out |= resolve_literals(crate, parent, parent.local_expr(l), depth + 1)
+                    if not parent.is_param(l):
+                        for bi, si in parent.defs.get(l, []):
+                            out |= resolve_literals(crate, parent, parent.def_expr(bi, si), depth + 1)
+        return out
+    if e[0] == "var":
+        for bi, si in body.defs.get(e[1], []):
+            out |= resolve_literals(crate, body, body.def_expr(bi, si), depth + 1)
+        return out
+    if e[0] == "param":
+        l = e[1]
+        if body.kind == "closure":
+            parent = crate.fn(body.parent)
+            if parent is None:
+                return out
+            for bb, t, c in parent.calls():
+                if c == body.path:
+                    a = parent.call_args(bb)
+                    if len(a) >= 2:
+                        tup = strip_sites(a[1])
+                        idx = l - 2
+                        if tup[0] == "agg" and tup[1] == "tuple" and 0 <= idx < len(tup[2]):
+                            out |= resolve_literals(crate, parent, tup[2][idx], depth + 1)
+            return out
+        for b2 in crate.fns():
+            for bb, t, c in b2.calls():
+                if c == body.path:
+                    a = b2.call_args(bb)
+                    if l - 1 < len(a):
+                        out |= resolve_literals(crate, b2, a[l - 1], depth + 1)
+        return out
     return out
 
 
